@@ -337,6 +337,25 @@ impl IndexTable {
 		(e.as_u64(), i)
 	}
 
+	/// Verification hook (H5): entry packing and key recovery for a given index size. Returns
+	/// (entry, address(entry), partial_key(entry), chunk_index(key_prefix), recovered first
+	/// eight key bytes as a big-endian number). Only compiled with `--cfg parity_db_verif`.
+	#[cfg(parity_db_verif)]
+	pub fn verif_entry_codec(index_bits: u8, key_prefix: u64, address: u64) -> (u64, u64, u64, u64, u64) {
+		let table = IndexTable::create_new(std::path::Path::new(""), TableId::new(0, index_bits));
+		let partial_key = Entry::extract_key(key_prefix, index_bits);
+		let entry = Entry::new(Address::from_u64(address), partial_key, index_bits);
+		let chunk = table.chunk_index(key_prefix);
+		let recovered = table.recover_key_prefix(chunk, entry);
+		(
+			entry.as_u64(),
+			entry.address(index_bits).as_u64(),
+			entry.partial_key(index_bits),
+			chunk,
+			u64::from_be_bytes(recovered[0..8].try_into().unwrap()),
+		)
+	}
+
 	fn find_entry_base(&self, key_prefix: u64, sub_index: usize, chunk: &Chunk) -> (Entry, usize) {
 		let partial_key = Entry::extract_key(key_prefix, self.id.index_bits());
 		for i in sub_index..CHUNK_ENTRIES {
